@@ -61,6 +61,50 @@ Section EditSpec.
     | e :: es' => (match eop e with Emit => length (X e) | _ => 0 end) + kept es'
     end.
 
+  (* number of elements removed from lhs / inserted from rhs; their sum is the size of the change
+     the script describes (the "length" a minimal script minimises) *)
+  Fixpoint dropped (es : list edit) : nat :=
+    match es with
+    | [] => 0
+    | e :: es' => (match eop e with Drop | Replace => length (X e) | _ => 0 end) + dropped es'
+    end.
+
+  Fixpoint copied (es : list edit) : nat :=
+    match es with
+    | [] => 0
+    | e :: es' => (match eop e with Copy | Replace => length (Y e) | _ => 0 end) + copied es'
+    end.
+
+  Definition cost (es : list edit) : nat := dropped es + copied es.
+
+  (* ---- the most general reading of a script ---------------------------------------------- *)
+
+  (* [Exec l r es]: ANY sequence of edits -- in any order, of any kinds, empty ones, unfused ones
+     -- that, executed from the current offsets, consumes [l] and produces [r].  Only the
+     field(s) an operation acts on are looked at; what the other field holds is ignored.
+     ([Valid] additionally wants the unused fields empty, as EditScript returns them.)  This is
+     the class of scripts the returned one is compared with in the minimality theorems. *)
+  Fixpoint Exec (l r : list T) (es : list edit) : Prop :=
+    match es with
+    | [] => l = [] /\ r = []
+    | e :: es' =>
+      match eop e with
+      | Drop => exists l', l = X e ++ l' /\ Exec l' r es'
+      | Copy => exists r', r = Y e ++ r' /\ Exec l r' es'
+      | Replace => exists l' r', l = X e ++ l' /\ r = Y e ++ r' /\ Exec l' r' es'
+      | Emit => exists l' y r', l = X e ++ l' /\ r = y ++ r' /\
+                                Forall2 (fun a b => eqb a b = true) (X e) y /\ Exec l' r' es'
+      end
+    end.
+
+  (* an edit with the fields its operation does not use emptied *)
+  Definition clean (e : edit) : edit :=
+    match eop e with
+    | Drop | Emit => mkEdit (eop e) (X e) []
+    | Copy => mkEdit Copy [] (Y e)
+    | Replace => e
+    end.
+
   (* ---- canonical form ------------------------------------------------------------------ *)
 
   Definition is_nil {A} (l : list A) : bool := match l with [] => true | _ => false end.
@@ -158,6 +202,11 @@ Arguments EqLists {T} eqb l r.
 Arguments expand {T} lhs es.
 Arguments ValidScript {T} eqb lhs rhs es.
 Arguments kept {T} es.
+Arguments dropped {T} es.
+Arguments copied {T} es.
+Arguments cost {T} es.
+Arguments Exec {T} eqb l r es.
+Arguments clean {T} e.
 Arguments consumed {T} es.
 Arguments produced {T} es.
 Arguments is_nil {A} l.
